@@ -245,8 +245,8 @@ def main(argv):
     if n_obs == 0:
         problems.append('no obligations generated')
     base = load_baseline().get(prop)
-    if base is not None and not violations and not undecided and n_obs < base['obligations']:
-        problems.append('obligation count %d below committed baseline %d' % (n_obs, base['obligations']))
+    if base is not None and not violations and not undecided and n_obs < 0.7 * base['obligations']:
+        problems.append('obligation count %d far below committed baseline %d (vacuity guard: floor is 70%%)' % (n_obs, base['obligations']))
     for r in results:
         if r['kind'] == 'contract' and r['status'] == 'proved' and r['reachable_exits'] == 0:
             problems.append('unit %s %s: no reachable exit (vacuous precondition?)' % (r['name'], r['config']))
